@@ -56,7 +56,7 @@ def parseSR (t : Tok) : Option (SR Float × Tok) :=
           some ({ name := pnameOf name, lat0, lat1, lat2, latTS, long0, x0, y0, k0, k, a, b, rf, es, e, ep2,
                   zone, toMeter, fromGreenwich, sphere := sph == "1", ra := ra == "1",
                   utmSouth := south == "1", czech := czech == "1", axis := axis.toList,
-                  codeWGS84 := wgs == "1", datum := dat }, t)
+                  datumCode := (if wgs == "-" then "" else wgs), datum := dat }, t)
         | _ => none
       | _, _ => none
     | _, _ => none
